@@ -23,7 +23,6 @@ from enum import Enum
 from struct import Struct, error as StructError, pack
 from uuid import UUID, uuid4 as get_uuid
 import builtins
-import collections
 import copy
 import io
 import re
@@ -353,6 +352,13 @@ def _make_iter(val_type: ValueType, typ: type[ValueT]) -> Callable[['Attribute[V
     iterator.__doc__ = f'Iterate over the attribute, treating it as an array of {val_type.name.lower()} values.'
     iterator.__annotations__['return'] = Iterator[typ]  # type: ignore
     return iterator
+
+
+class _StubDict(dict[UUID, 'StubElement']):
+    """Creates the stub for each UUID on demand, so all references share one object."""
+    def __missing__(self, uuid: UUID) -> 'StubElement':
+        stub = self[uuid] = StubElement.stub(uuid)
+        return stub
 
 
 class _ValProps:
@@ -1479,7 +1485,7 @@ class Element(Mapping[str, Attribute]):
         # This is a (attr, index, uuid, line_num) tuple.
         fixups: list[tuple[Attribute, Optional[int], UUID, int]] = []
         # Ensure these reuse the same objects.
-        stubs: dict[UUID, StubElement] = collections.defaultdict(StubElement.stub)
+        stubs: dict[UUID, StubElement] = _StubDict()
 
         elements = []
 
